@@ -743,10 +743,21 @@ def applyFlagCalls : List (Bool × String × Val) → Config → Option Config
     | some c' => applyFlagCalls r c'
     | none => none
 
-/-- bin/main.rs:684-734 `GetOptsOptions::apply_to`: the dedicated flags, then every `--config`
-pair through `override_value` in the map's iteration order. -/
+/-- The `max_width` pair(s) first, the other pairs behind in their order. -/
+def maxWidthFirst (l : List (String × Val)) : List (String × Val) :=
+  l.filter (fun kv => kv.1 == "max_width") ++ l.filter (fun kv => !(kv.1 == "max_width"))
+
+/-- The order in which `apply_to` feeds the `--config` pairs to `override_value`, given the
+iteration order `l` of the `HashMap`: since the repair of F3 (`fix: apply a --config max_width
+override before the other overrides`) the `max_width` pair comes first.  Which of the two shapes the
+source has is read off bin/main.rs by the translator (`inlineMaxWidthFirst`). -/
+def orderInline (l : List (String × Val)) : List (String × Val) :=
+  if inlineMaxWidthFirst then maxWidthFirst l else l
+
+/-- bin/main.rs:684-741 `GetOptsOptions::apply_to`: the dedicated flags, then every `--config`
+pair through `override_value`: `max_width` first, the rest in the map's iteration order. -/
 def applyTo {α} (o : CliOptions α) (c : Config) : Option Config :=
-  bindO (applyFlagCalls (flagCalls o) c) (applyInline o.inlineConfig)
+  bindO (applyFlagCalls (flagCalls o) c) (applyInline (orderInline o.inlineConfig))
 
 /-- mod.rs:518-547 `config_path`. -/
 def configPath {α} [DecidableEq α] (t : Tree α) (o : CliOptions α) :
